@@ -41,6 +41,10 @@ META = {'design_ref': 'DESIGN.md section 7 / C14',
                'C14_timeout (deadline reached => ConnectionClosed), C14_live / C14_live_no_timeout (a PINGRESP clears the deadline, after which no keep-alive '
                'failure occurs), C14_connack / C14_negotiated (first ping K seconds after CONNACK, K = server value else client value), C14_zero / '
                'C14_zero_no_ping (K = 0: no ping is ever created). The trace-level bound "never more than K seconds without a transmission when the driver '
-               'services at reported times" is explored (monitors mon_c14_deadline, mon_c14_live, mon_c14_zero), not proved — partial.',
+               'services at reported times" is explored (monitors mon_c14_deadline, mon_c14_live, mon_c14_zero), not proved — partial. Monitors on the '
+               'implementation trace: mon_c14_deadline (a PINGRESP deadline armed at time t equals t + min(ping timeout, K*500 ms); a keep-alive failure only '
+               'at or after an armed deadline), mon_c14_live (a PINGRESP clears the deadline), mon_c14_zero (K = 0: no PINGREQ), mon_c14_pings (completeness '
+               'half: while Connected with K > 0 a next ping time exists and is at most K seconds after the latest transmission / CONNACK; a service call at '
+               'or after it arms a PINGRESP deadline; a service call at or after an armed deadline fails the connection).',
  'technique': 'machine-checked proof in Coq over the engine model + lock-step correspondence of the extracted model with the implementation + extracted '
               'monitors on the implementation trace'}
